@@ -38,8 +38,11 @@ type scen struct {
 	trace   []string
 	emitted map[uint64]bool // drop already logged
 
-	noTrace bool        // the closing part of the log is not a determined linearisation
-	peakSub map[int]int // highest number of running handlers per subnet since the phase began
+	fixed, perPeer int // goroutines of package syncer: without peers, and per registered peer
+	endingRate     int // one request in endingRate ends in an error / panic / client abort (0: none)
+	calibrated     bool
+	noTrace        bool        // the closing part of the log is not a determined linearisation
+	peakSub        map[int]int // highest number of running handlers per subnet since the phase began
 
 	steps []string // human readable script, for the replay file
 	fails []failure
@@ -75,6 +78,8 @@ func coqBool(b bool) string {
 }
 
 func newScen(cfg bedConfig, r *rng.R) (*scen, error) {
+	// the goroutines of the previous syncer are all gone before this one is measured
+	waitUntil(2*time.Second, func() bool { return goroutines().syncer == 0 })
 	tb, err := newBed(cfg)
 	if err != nil {
 		return nil, err
@@ -91,7 +96,43 @@ func newScen(cfg bedConfig, r *rng.R) (*scen, error) {
 	tb.onReturn = func(ri *rpcInfo) {
 		sc.emit(fmt.Sprintf("LHDone %d", ri.rid), fmt.Sprintf("LRelSub %d", ri.rid), fmt.Sprintf("LRelPeer %d", ri.rid))
 	}
+	// How many goroutines the idle syncer runs in its own package (Run and its loops), by count
+	// rather than by function name; one more per registered peer is measured at the first connect.
+	sc.fixed, sc.perPeer = stableSyncerCount(), 1
 	return sc, nil
+}
+
+// stableSyncerCount reads the number of goroutines with a frame of package syncer until three
+// readings in a row agree (used only while nothing is in flight).
+func stableSyncerCount() int {
+	last, same := -1, 0
+	for i := 0; i < 400; i++ {
+		n := goroutines().syncer
+		if n == last {
+			if same++; same >= 2 {
+				return n
+			}
+		} else {
+			last, same = n, 0
+		}
+		time.Sleep(150 * time.Microsecond)
+	}
+	return last
+}
+
+// calibratePeers measures the goroutines per registered peer (nothing is in flight).
+func (sc *scen) calibratePeers() {
+	n := len(sc.tb.s.Peers())
+	if n == 0 || sc.calibrated {
+		return
+	}
+	sc.tb.mu.Lock()
+	live := sc.tb.live
+	sc.tb.mu.Unlock()
+	if d := stableSyncerCount() - sc.fixed - live; d > 0 && d%n == 0 {
+		sc.perPeer = d / n
+	}
+	sc.calibrated = true
 }
 
 // ------------------------------------------------------------ connect / disconnect
@@ -181,7 +222,31 @@ func (sc *scen) connectBatch(specs [][2]int) (admitted int) {
 			p.close()
 		}
 	}
+	sc.calibratePeers()
 	return
+}
+
+// connectOutbound makes the syncer dial a peer of the harness at 127.0.sub.host.
+func (sc *scen) connectOutbound(sub, host int) bool {
+	tb := sc.tb
+	id := sc.next
+	sc.next++
+	sc.stepf("the syncer connects out to peer %d at %v", id, srcIP(sub, host))
+	p, err := tb.connectOut(id, sub, host)
+	if err != nil {
+		sc.failf("syncer-outbound-connect-failed", "Connect to a reachable peer at %v failed: %v", srcIP(sub, host), err)
+		return false
+	}
+	sc.all = append(sc.all, p)
+	if !tb.waitFor(settleTimeout, func() bool { return tb.hasPeer(p.addr) }) {
+		sc.failf("syncer-outbound-connect-failed", "Connect returned but the peer %s is not listed", p.addr)
+		return false
+	}
+	sc.emitL(fmt.Sprintf("LAllow %d %d false true", p.id, p.key), fmt.Sprintf("LAdd %d true", p.id), fmt.Sprintf("LLoopStart %d true", p.id))
+	sc.peers = append(sc.peers, p)
+	sc.notes["outbound"]++
+	sc.calibratePeers()
+	return true
 }
 
 // disconnect closes the client side of a peer that has nothing unresolved and waits
@@ -256,9 +321,11 @@ func (sc *scen) settle(what string) bool {
 			why = w
 			return false
 		}
-		inv := goroutines()
-		if inv.handlers != live {
-			why = fmt.Sprintf("%d handler goroutines exist, %d handlers are inside the chain manager", inv.handlers, live)
+		// every goroutine of the syncer is accounted for: its own loops, one per registered peer,
+		// one per handler inside the chain manager -- anything beyond is a handler between two steps
+		want := sc.fixed + sc.perPeer*len(tb.s.Peers()) + live
+		if got := goroutines().syncer; got != want {
+			why = fmt.Sprintf("handler goroutines in transit: the syncer runs %d goroutines, %d are accounted for (%d handlers are inside the chain manager)", got, want, live)
 			return false
 		}
 		// nothing moved while we looked
@@ -273,7 +340,13 @@ func (sc *scen) settle(what string) bool {
 		if strings.Contains(why, "handler goroutines") {
 			kind = "syncer-handler-goroutine-stuck"
 		}
-		sc.failf(kind, "%s: no rest after %v: %s (limits: per-peer %d, per-subnet %d)", what, settleTimeout, why, sc.cfg.MaxRPC, sc.cfg.MaxSubnet)
+		extra := ""
+		if kind == "syncer-handler-goroutine-stuck" {
+			for _, g := range goroutinesWith("handleRPC", "ReadRequest", "WriteResponse") {
+				extra += "\n" + g
+			}
+		}
+		sc.failf(kind, "%s: no rest after %v: %s (limits: per-peer %d, per-subnet %d)%s", what, settleTimeout, why, sc.cfg.MaxRPC, sc.cfg.MaxSubnet, extra)
 	}
 	return ok
 }
@@ -358,6 +431,17 @@ func (sc *scen) burst(counts map[int]int, what string) {
 	var desc []string
 	var wg sync.WaitGroup
 	start := make(chan struct{})
+	ends := map[int][]int{} // drawn here: the generator's stream is not shared with the senders
+	for _, p := range sc.peers {
+		for i := 0; i < counts[p.id]; i++ {
+			e := endOK
+			if sc.endingRate > 0 && sc.r.Intn(sc.endingRate) == 0 {
+				e = 1 + sc.r.Intn(3)
+			}
+			sc.notes["ending:"+endingName[e]]++
+			ends[p.id] = append(ends[p.id], e)
+		}
+	}
 	for _, p := range sc.peers {
 		n := counts[p.id]
 		if n == 0 {
@@ -369,7 +453,7 @@ func (sc *scen) burst(counts map[int]int, what string) {
 			defer wg.Done()
 			<-start
 			for i := 0; i < n; i++ {
-				tb.send(p)
+				tb.sendEnding(p, ends[p.id][i])
 			}
 		}()
 	}
@@ -450,6 +534,7 @@ func (sc *scen) drain(what string) {
 		}
 		switch {
 		case ri.served, ri.gotErr && !ri.entered:
+		case ri.entered && ri.gotErr && (ri.ending != endOK || sc.cfg.RPCTimeoutMs > 0): // made to fail (or the short RPC deadline of this bed passed while it was held); what matters is that its slots came back
 		case ri.entered && ri.gotErr:
 			lost = append(lost, fmt.Sprintf("request %d of peer %d was handled but its reply failed", ri.rid, ri.conn))
 		default:
